@@ -295,7 +295,9 @@ def force_sibling_net(rng, d, b):
 
 def gen_design(rng, name, mode):
   d = ec.gen_hierarchy(rng, name)
+  ifc_driven = ec.add_interfaces(rng, d) if mode != 'wild' and d.levels >= 2 and rng.random() < 0.3 else []
   b = Builder(rng, d)
+  for x in ifc_driven: b.drv[x.root] = full_mask(x)
   d.mode = mode
   if mode == 'wild':
     b.add_blocks()
@@ -374,7 +376,15 @@ def check_chains(ctx, d, top, src):
         ctx.violation('C08:harness-interval', f'generator interval of {e.full} = {(e.sig.root, e.lo, e.hi)} but pymtl3 metadata says {(r, lo, hi)} ({obj!r})',
                       {'design_source': src}, found_input=False); return
 
-def simulate(ctx, d, top, nets, src, tag):
+def set_top_input(top, x, value):
+  """assign a top-level input (plain port, element of a list of ports, member of an interface) on the simulated top"""
+  obj = ec.lookup(top, x.root)
+  if hasattr(obj, 'from_bits') and not hasattr(obj, '_uint'):
+    T = type(obj); obj @= T.from_bits(__import__('pymtl3').Bits(T.nbits, value))
+  else:
+    obj @= value
+
+def simulate(ctx, d, top, nets, src, tag, edges=()):
   from pymtl3.passes.PassGroups import DefaultPassGroup
   import sched_common as sc
   try:
@@ -393,7 +403,7 @@ def simulate(ctx, d, top, nets, src, tag):
     vals = {}
     for x in d.insts[()].sigs:
       if x.kind == 'in':
-        v = r.getrandbits(twidth(x.T)); sc.set_input(top, x.name, v); vals[x.name] = v
+        v = r.getrandbits(twidth(x.T)); set_top_input(top, x, v); vals[x.name] = v
     for phase in ('sim_eval_combinational', 'sim_tick'):
       try:
         getattr(top, phase)()
@@ -419,6 +429,21 @@ def simulate(ctx, d, top, nets, src, tag):
           key = 'C08:same-net-overlapping-slices' if overlapping_readers(d, w, ms) else feature_key(d, src, 'net-value')
           ctx.violation(key, f'design {d.name} ({tag}): after {phase} members of the net written by {w} differ from the writer: writer={wv:#x}, members={[(m, hex(v)) for m, v in bad[:4]]} (inputs {vals})',
                         {'design_source': src, 'net_writer': w, 'net_members': ms, 'writer_value': wv, 'differing_members': bad, 'inputs': vals})
+          return True
+      # independent of the nets pymtl3 reported: the two sides of every connect statement (member-wise for interface
+      # connects) hold the same value
+      for a, b, h in edges:
+        try:
+          va = ec.const_value(a) if a.startswith('Bits') else ec.sim_value(top, a)
+          vb = ec.const_value(b) if b.startswith('Bits') else ec.sim_value(top, b)
+        except Exception as e:
+          ctx.violation('C08:harness-simvalue', f'cannot read simulated value: {e!r}', {'design_source': src}, found_input=False); return True
+        if va != vb:
+          net = next(((w, ms) for w, ms in nets if a in ms or b in ms), None)
+          key = 'C08:same-net-overlapping-slices' if net and overlapping_readers(d, net[0], net[1]) else feature_key(d, src, 'net-value', 'connected-pair')
+          ctx.violation(key, f'design {d.name} ({tag}): after {phase} the two sides of a connect statement differ: {a}={va:#x} but {b}={vb:#x}'
+                             + ('' if net else ' (neither is a member of any net that elaboration reported)') + f' (inputs {vals})',
+                        {'design_source': src, 'pair': [a, b], 'values': [va, vb], 'inputs': vals})
           return True
   return True
 
@@ -472,7 +497,10 @@ def run(ctx):
       if r[0] == 'ok':
         edges = d.edge_names(orders, flips)
         okey = tuple((w, tuple(ms)) for w, ms in r[1])
-        if okey not in seen_orders or v < 2:
+        big = sum(len(ms) for w, ms in r[1]) > 120
+        if (okey not in seen_orders or v < 2) and len(seen_orders) < (3 if big else 6 if quick else 10):
+          # the acceptors certify a few of the observed resolution orders per design (all orders are compared with each
+          # other in Python above/below); large designs get fewer because the acceptor is quadratic in the number of nets
           seen_orders.add(okey)
           term, names = coq_case(d, edges, r[1])
           cases.append(term); meta.append((d, src, r[1], edges, v))
@@ -480,7 +508,7 @@ def run(ctx):
           if first_ok is None:
             first_ok = v
             check_chains(ctx, d, r[2], src)
-          simulate(ctx, d, r[2], r[1], src, f'variant {v}')
+          simulate(ctx, d, r[2], r[1], src, f'variant {v}', edges)
     if any(o[0][0] == 'ok' for o in outcomes): nok += 1
     # a design built to be legal (port rules respected, one driver per bit, every net driven) must get its writers named
     if mode == 'legal' and not (d.features & {'blk-parent+field', 'same-net-overlap'}) and outcomes[0][0][0] == 'err':
